@@ -24,6 +24,7 @@ import (
 // target had answered (with a margin) before the signal was sent.
 
 const procMargin = 150 * time.Millisecond
+const exitMargin = 500 * time.Millisecond
 
 var (
 	buildOnce sync.Once
@@ -80,6 +81,10 @@ func (t *target) ServeHTTP(w http.ResponseWriter, r *http.Request) {
 type procResult struct {
 	inconclusive string
 	exit         int
+	// the process said "timeout exceeded" (it exited through the interrupt timeout, without the final flush)
+	timedOut bool
+	// requests the target had answered at least exitMargin before the process was gone
+	servedExit   int
 	servedBefore int
 	started      int
 	lines        int
@@ -178,15 +183,20 @@ log:
 		<-exited
 		return procResult{inconclusive: "no-exit-in-45s"}
 	}
+	texit := time.Now()
 	res := procResult{}
 	if ee, ok := werr.(*exec.ExitError); ok {
 		res.exit = ee.ExitCode()
 	}
+	res.timedOut = strings.Contains(stderr.String(), "timeout exceeded")
 	tg.mu.Lock()
 	res.started = tg.started
 	for _, d := range tg.done {
 		if d.Before(tsig.Add(-procMargin)) {
 			res.servedBefore++
+		}
+		if d.Before(texit.Add(-exitMargin)) {
+			res.servedExit++
 		}
 	}
 	tg.mu.Unlock()
@@ -257,7 +267,9 @@ func runProc(kv map[string]string) string {
 		if r.inconclusive != "" {
 			return "inconclusive=" + r.inconclusive
 		}
-		failing := r.bad != 0 || r.lines < r.servedBefore
+		// an exit through the interrupt timeout skips the final flush: then everything answered until (shortly
+		// before) the exit counts, not only what was answered before the signal
+		failing := r.bad != 0 || r.lines < r.servedBefore || (r.timedOut && r.lines < r.servedExit)
 		if !failing {
 			if failed == 0 {
 				break
@@ -271,5 +283,5 @@ func runProc(kv map[string]string) string {
 	if failed > 0 && streak < 3 {
 		return fmt.Sprintf("inconclusive=loss-in-%d-runs-not-3-in-a-row", failed)
 	}
-	return fmt.Sprintf("exit=%d served_before=%d started=%d lines=%d bad=%d repro=%d", r.exit, r.servedBefore, r.started, r.lines, r.bad, streak)
+	return fmt.Sprintf("exit=%d served_before=%d started=%d lines=%d bad=%d repro=%d tmo=%d served_exit=%d", r.exit, r.servedBefore, r.started, r.lines, r.bad, streak, b2i(r.timedOut), r.servedExit)
 }
